@@ -102,6 +102,65 @@ theorem parse_error_line (ws : Ws) (ae : Option Str) (text : Str) (e : PErr) (h 
 example : scan .all none [97, 10, 10, 123, 37, 120, 37, 125] = .error ⟨.unknownOp, 3⟩ := rfl
 example : lineAt [97, 10, 10, 123, 37, 120, 37, 125] 8 = 3 := by decide
 
+theorem lineAt_prefix (A B : Str) : lineAt (A ++ B) A.length = 1 + countNl A := by simp [lineAt]
+
+/-- **parse_error_located**: every `ParseError` names the line of *the* offending directive.  Either
+(a) the error is raised by a complete directive `T = {x … x}`: every token before it was accepted by the builder (state
+`st`), `T` is the first one `stepTok` rejects — with exactly the reported error —, its source sits in the template at
+offset `|A|` (`A` = source of the accepted tokens), it opens on line `lineAt text |A|` and the reported line is the line
+of the offset just behind its closing marker (`reader.line` after the directive has been consumed; the line of the
+directive itself unless it spans several lines); or
+(b) all complete directives were accepted and the input ran out (`Missing {% end %}`, a directive that is never
+closed): the reported line is that of the offset where the remaining text / the unclosed directive starts. -/
+theorem parse_error_located (ws : Ws) (ae : Option Str) (text : Str) (e : PErr) (h : scan ws ae text = .error e) :
+    (∃ pre k c l post st rest,
+        (lex text).1 = pre ++ Tok.tag k c l e.line :: post ∧
+        runToks ⟨ws, ae, [], []⟩ pre = .ok st ∧ stepTok st (.tag k c l e.line) = .error e ∧
+        text = pre.flatMap Tok.src ++ (Tok.tag k c l e.line).src ++ rest ∧
+        l = lineAt text (pre.flatMap Tok.src).length ∧
+        e.line = lineAt text ((pre.flatMap Tok.src).length + (Tok.tag k c l e.line).src.length)) ∨
+    (∃ st, runToks ⟨ws, ae, [], []⟩ (lex text).1 = .ok st ∧ finish st (lex text).2 = .error e ∧
+        text = (lex text).1.flatMap Tok.src ++ (lex text).2.src ∧
+        e.line = lineAt text ((lex text).1.flatMap Tok.src).length) := by
+  have hsrc := lex_src text
+  have hw := lex_line_invariant text
+  unfold scan at h
+  generalize lex text = r at h hsrc hw ⊢
+  obtain ⟨ts, f⟩ := r
+  simp only at h hsrc hw ⊢
+  rcases build_err_split h with ⟨pre, t, post, st, rfl, hr, he⟩ | ⟨st, hr, he⟩
+  · obtain ⟨k, c, l, rfl⟩ := stepTok_err he
+    have hw' := walk_split hw
+    simp only [walk] at hw'
+    obtain ⟨hl, hle, _⟩ := hw'
+    have htext : text = pre.flatMap Tok.src ++ (Tok.tag k c l e.line).src ++ (post.flatMap Tok.src ++ f.src) := by
+      rw [← hsrc]; simp [List.flatMap_append, List.flatMap_cons]
+    refine .inl ⟨pre, k, c, l, post, st, _, rfl, hr, he, htext, ?_, ?_⟩
+    · rw [htext, List.append_assoc, lineAt_prefix, hl]
+    · rw [htext, ← List.length_append, lineAt_prefix, countNl_append, countNl_tag_src, hle, Nat.add_assoc]
+  · have hw' := walk_split (rest := []) (by simpa using hw)
+    refine .inr ⟨st, hr, he, hsrc.symm, ?_⟩
+    rw [← hsrc, lineAt_prefix]
+    cases f with
+    | eof l r le =>
+      simp only [walk] at hw'
+      simp only [finish] at he
+      split at he
+      · cases he; exact hw'.1
+      · cases he
+    | unterminated k l r =>
+      simp only [walk] at hw'
+      cases k <;> simp only [finish] at he <;> cases he <;> exact hw'
+
+-- non-vacuity (a): `a\n\n{%x%}`: the unknown operator is the first (and only) directive, at offset 3, line 3
+example : (lex [97, 10, 10, 123, 37, 120, 37, 125]).1 = [.text [97, 10, 10] 3, .tag .block [120] 3 3] := by rfl
+example : stepTok ⟨.all, none, [], [.text [97, 10, 10] 3 .all]⟩ (.tag .block [120] 3 3) = .error ⟨.unknownOp, 3⟩ := by rfl
+-- (a) with an earlier accepted directive and a directive spanning two lines: `{%if x%}{%end%}{{\n}}` reports line 2
+example : scan .all none [123, 37, 105, 102, 32, 120, 37, 125, 123, 37, 101, 110, 100, 37, 125, 123, 123, 10, 125, 125]
+    = .error ⟨.emptyExpr, 2⟩ := by rfl
+-- (b) `a\n{%if x%}\nb`: input runs out on line 3 with the `if` open
+example : scan .all none [97, 10, 123, 37, 105, 102, 32, 120, 37, 125, 10, 98] = .error ⟨.missingEnd, 2⟩ := by rfl
+
 /-- **unterminated_error_line**: a directive that is never closed is reported on the line of its opening marker. -/
 theorem unterminated_error_line (k : TagKind) (acc : Str) (l0 : Nat) (s : Str) (st : BState) (e : PErr)
     (h : finish st (lexTag k acc l0 s).2 = .error e) (hts : (lexTag k acc l0 s).1 = []) : e.line = l0 := by
